@@ -4,7 +4,9 @@ PROP = {'tables': ['C15'], 'n_quick': 110,
  'audit': 4,
  'audit_maxlen': 1500,
  'rule': 'real PSETs built with the crate: every optional global / input / output field alone (exhaustive: 7 + 55 + 17 field settings incl. mandatory-field '
-         'variations, multi-entry BTreeMap fields with compressed and uncompressed keys, ELIP-102 abf), tap trees of every shape up to 4 leaves (5 thorough), commitment / generator values of 32 and 34 bytes, '
+         'variations, multi-entry BTreeMap fields with compressed and uncompressed keys, ELIP-102 abf), tap trees of every shape up to 4 leaves (5 thorough), commitment / generator values of 32 and 34 bytes, every nested variable-length site (27: tap-tree leaf '
+         'scripts, scripts, unknown / proprietary values, keys and prefixes, preimages, witness elements and counts, paths, leaf-hash counts, ELIP-100 contract) at the '
+         'lengths 0, 0xfc, 0xfd, 0xfe, 0x100 and (rotating; all in thorough) 0xffff, 0x10000, '
          'map counts 0..3, blinded / explicit outputs, unknown and foreign proprietary pairs, n random subsets; the PSET hex literals of src/pset/mod.rs and the '
          "repository's transactions through from_tx; 2n pair-level variants of valid encodings (pair re-ordering, duplicated key, dropped mandatory pair, wrong "
          'count, missing / extra map, corrupted preimage, trailing bytes after a count VarInt, explicit Default sighash byte, key/value edits), n/2 byte-level '
